@@ -75,11 +75,18 @@ def observe(out):
     return {m.group(1): m.group(2) for m in re.finditer(r'Message: VOPT\|(\w+)\|(.*?)\|END', out)}
 
 
-def prepare(root, proj, backend, history):
+BNAMES = {'nolang-glob': 'b[1]*?x'}      # project variant -> name of the build directory (characters glob treats specially)
+
+
+def bname_of(pname):
+    return BNAMES.get(pname, 'b')
+
+
+def prepare(root, proj, backend, history, bname='b'):
     """build the state before the command under test; returns (snapshot of B, observed option values)"""
     from verif import mesonproc as mp
     src = os.path.join(root, 'src')
-    bdir = os.path.join(root, 'b')
+    bdir = os.path.join(root, bname)
     shutil.rmtree(root, ignore_errors=True)
     mp.write_tree(src, proj)
     env = mp.base_env(home=os.path.join(root, 'home'))
@@ -101,9 +108,9 @@ def prepare(root, proj, backend, history):
     return snap, vals
 
 
-def argv_for(cmdname, root, backend):
+def argv_for(cmdname, root, backend, bname='b'):
     argv, _ = COMMANDS[cmdname]
-    bdir = os.path.join(root, 'b')
+    bdir = os.path.join(root, bname)
     a = [bdir if x == 'B' else x for x in argv]
     if cmdname == 'setup-fresh':
         a = a[:2] + [os.path.join(root, 'src')] + a[2:] + ['--backend=' + backend]
@@ -116,24 +123,25 @@ def trial(job):
     pname, proj, backend, history, cmdname, k, tear = job
     root = os.path.join(scratch_root(), 'c09.%d' % os.getpid())
     src = os.path.join(root, 'src')
-    bdir = os.path.join(root, 'b')
+    bname = bname_of(pname)
+    bdir = os.path.join(root, bname)
     # the state before the command is prepared once per worker at the worker's own path (a build directory records
     # absolute paths, so a snapshot is only valid where it was made)
     ck_ = (pname, history)
     if ck_ not in _states:
-        _states[ck_] = prepare(root, proj, backend, history)
+        _states[ck_] = prepare(root, proj, backend, history, bname)
     snap, before = _states[ck_]
     if not os.path.isdir(src):
         mp.write_tree(src, proj)
     fsutil.restore(bdir, snap)
     env = mp.base_env(home=os.path.join(root, 'home'))
-    r = server().run(argv_for(cmdname, root, backend), src, env=env, pre=('verif.fsfault', 'arm_sorted', (bdir, k, '', tear)))
+    r = server().run(argv_for(cmdname, root, backend, bname), src, env=env, pre=('verif.fsfault', 'arm_sorted', (bdir, k, '', tear)))
     killed = r.rc == 137
     # recovery as the property prescribes
     if os.path.exists(os.path.join(bdir, 'meson-private', 'coredata.dat')):
         rec = ['setup', '--reconfigure', bdir]
     else:
-        rec = argv_for('setup-fresh', root, backend) if cmdname == 'setup-fresh' else ['setup', bdir, src, '--backend=' + backend]
+        rec = argv_for('setup-fresh', root, backend, bname) if cmdname == 'setup-fresh' else ['setup', bdir, src, '--backend=' + backend]
     rr = mp.run_meson(rec, src, env=env)
     res = {'k': k, 'killed': killed, 'rec_rc': rr.rc, 'viol': None, 'outcome': None}
     what = '%s / %s / %s killed before mutation %d%s' % (pname, history, cmdname, k, ' (torn write)' if tear else '')
@@ -202,16 +210,17 @@ def count_points(job):
     from verif import mesonproc as mp, fsfault
     pname, proj, backend, history, cmdname = job
     root = os.path.join(scratch_root(), 'c09c.%d' % os.getpid())
-    snap, before = prepare(root, proj, backend, history)
-    bdir = os.path.join(root, 'b')
+    bname = bname_of(pname)
+    snap, before = prepare(root, proj, backend, history, bname)
+    bdir = os.path.join(root, bname)
     log = os.path.join(root, 'mut.log')
     env = mp.base_env(home=os.path.join(root, 'home'))
     src = os.path.join(root, 'src')
-    r = server().run(argv_for(cmdname, root, backend), src, env=env, pre=('verif.fsfault', 'arm_sorted', (bdir, 0, log, 0)))
+    r = server().run(argv_for(cmdname, root, backend, bname), src, env=env, pre=('verif.fsfault', 'arm_sorted', (bdir, 0, log, 0)))
     points = fsfault.read_log(log)
     # a second counting run must list the same mutations (determinism of the enumeration)
     fsutil.restore(bdir, snap)
-    r2 = server().run(argv_for(cmdname, root, backend), src, env=env, pre=('verif.fsfault', 'arm_sorted', (bdir, 0, log, 0)))
+    r2 = server().run(argv_for(cmdname, root, backend, bname), src, env=env, pre=('verif.fsfault', 'arm_sorted', (bdir, 0, log, 0)))
     points2 = fsfault.read_log(log)
     # (names made by tempfile.mkstemp/mkdtemp - compiler checks - differ between any two runs)
     def norm(path):
@@ -232,22 +241,25 @@ def main():
     if not os.path.exists(fsfault.SHIM):
         ck.internal('tools/bin/fsfault.so missing: run ./setup.sh')
     mp.preimport()
-    projects = [('nolang', PROJECT, 'none'), ('nolang-ninja', NPROJECT, 'ninja')]
+    projects = [('nolang', PROJECT, 'none'), ('nolang-ninja', NPROJECT, 'ninja'), ('nolang-glob', PROJECT, 'none')]
     if ck.thorough:
         projects.append(('c-ninja', CPROJECT, 'ninja'))
         global FOLLOW_WIPE
         FOLLOW_WIPE = True
     if ck.args.replay:
         d = json.load(open(ck.args.replay))
-        proj = {'nolang': PROJECT, 'nolang-ninja': NPROJECT}.get(d['project'], CPROJECT)
-        backend = 'none' if d['project'] == 'nolang' else 'ninja'
+        proj = {'nolang': PROJECT, 'nolang-ninja': NPROJECT, 'nolang-glob': PROJECT}.get(d['project'], CPROJECT)
+        backend = 'none' if d['project'] in ('nolang', 'nolang-glob') else 'ninja'
         job, snap, before, points, rc, same = count_points((d['project'], proj, backend, d['history'], d['command']))
         res = trial((d['project'], proj, backend, d['history'], d['command'], d['k'], d.get('tear', 0)))
         print(res)
         sys.exit(1 if res['viol'] else 0)
     # the ninja-backend variant of the language-less project: in quick only the commands that write the manifest, on two histories
     NPAIRS = [('fresh', 'setup-fresh'), ('configured', 'reconfigure-D'), ('configured', 'wipe'), ('failed-reconfigure', 'reconfigure-D')]
-    cjobs = [(pn, pj, be, h, c) for pn, pj, be in projects for h, c in PAIRS if ck.thorough or pn != 'nolang-ninja' or (h, c) in NPAIRS]
+    # a build directory whose name holds characters that glob treats specially: in quick the commands that list / delete files
+    GPAIRS = [('fresh', 'setup-fresh'), ('configured', 'wipe'), ('native-file', 'wipe'), ('configured', 'reconfigure-D')]
+    cjobs = [(pn, pj, be, h, c) for pn, pj, be in projects for h, c in PAIRS
+             if ck.thorough or (pn == 'nolang') or (pn == 'nolang-ninja' and (h, c) in NPAIRS) or (pn == 'nolang-glob' and (h, c) in GPAIRS)]
     trials = []
     tot = {'pairs': 0, 'mutation_points': 0, 'trials': 0, 'killed': 0, 'log_only_points_grouped': 0}
     per_pair = {}
